@@ -1136,3 +1136,29 @@ add("b11z", ["C11", "C05", "C13"], (P, TIDYFIX, """            interrupted = Fal
             if interrupted:
                 raise asyncio.CancelledError()
 """), expect='silent')
+
+# ------------------------------------------------------------------ F13: a sequence never drops a requirement
+add("m19t", ["C19"], (Q, """            self.jobs[0].requires(required)
+        else:
+            self._pending_required.append(required)
+""", """            self.jobs[0].requires(required)
+"""), rules=["R19.9"], note="F13 reverted (constructor)")
+add("m19u", ["C19"], (Q, """        else:
+            # this is the first job of the sequence: it inherits
+            # the requirements received while the sequence was empty
+            new_jobs[0].requires(self._pending_required)
+            self._pending_required = []
+""", ""), rules=["R19.9"], note="kept but never handed over")
+add("m19v", ["C19"], (Q, """            # no first job yet, see append()
+            self._pending_required.extend(requirements)
+            return""", """            # no first job yet
+            return"""), rules=["R19.9"], note="F13 reverted (requires)")
+add("b19t", ["C19"], (Q, """        self._pending_required = []
+        if self.jobs:
+            self.jobs[0].requires(required)
+        else:
+            self._pending_required.append(required)
+""", """        self._pending_required = [] if self.jobs else [required]
+        if self.jobs:
+            self.jobs[0].requires(required)
+"""), expect='silent')
